@@ -88,15 +88,52 @@ def _lib_frame(tb):
     return hit
 
 
+CASE_TIMEOUT = int(os.environ.get("VERIF_CASE_TIMEOUT", "120"))  # seconds; generated cases take milliseconds
+
+
+class _CaseTimeout(BaseException):
+    pass
+
+
+class _watchdog:
+    """raises _CaseTimeout in the running case after CASE_TIMEOUT seconds (main thread of a worker process only)"""
+
+    def __enter__(self):
+        import signal
+        import threading
+
+        self.on = threading.current_thread() is threading.main_thread() and hasattr(signal, "SIGALRM")
+        if self.on:
+            def _raise(sig, frm):
+                raise _CaseTimeout()
+
+            self.old = signal.signal(signal.SIGALRM, _raise)
+            signal.alarm(CASE_TIMEOUT)
+        return self
+
+    def __exit__(self, *a):
+        if self.on:
+            import signal
+
+            signal.alarm(0)
+            signal.signal(signal.SIGALRM, self.old)
+        return False
+
+
 def execute(mod, case, ctx):
     """Run one case.  An exception escaping run_case is a violation bucket if it was raised below a
     frame of the library under test (the oracle expected that call to succeed), else a harness error."""
     with warnings.catch_warnings():
         warnings.simplefilter("ignore")
         try:
-            mod.run_case(case, ctx)
+            with _watchdog():
+                mod.run_case(case, ctx)
         except HarnessError:
             raise
+        except _CaseTimeout:
+            # a time budget hit is "inconclusive", never a violation: the case is counted and left out
+            ctx.event("case-timeout")
+            ctx.fails[:] = []
         except Exception as e:  # noqa: BLE001
             fr = _lib_frame(e.__traceback__)
             if fr is None:
